@@ -2,10 +2,13 @@
 """Translator: re-extracts, on every run, the constants and constant tables the
 properties talk about from /repo's Go sources into coq/Generated/Constants.v.
 
-Fails closed: a constant that cannot be found is reported (exit 2) and the file is
-not written, so the Coq build -- and every check -- stops with a broken tie.
+Fails closed PER CONSTANT: a constant that cannot be found in the Go sources is reported in
+coq/Generated/constants_status.json ("failed": {name: reason}); its definition is then taken from
+tools/constants_fallback.json (the last value that WAS extracted, committed) so that the rest of the
+development still builds, and tools/check reports a broken tie for exactly the properties whose
+Coq files (or generator) mention that constant.  Without a fallback value the run aborts (exit 2).
 The file is rewritten only when its content changes (keeps make incremental)."""
-import os, re, sys
+import json, os, re, sys
 
 REPO = os.environ.get("VERIF_REPO", "/repo")
 OUT = os.path.join(os.path.dirname(os.path.abspath(__file__)), "..", "coq", "Generated", "Constants.v")
@@ -31,39 +34,57 @@ def go_unescape(x):
 def coq_str(s):
     return '"' + s.replace('"', '""') + '"'
 
-errors = []
+errors = []          # fatal: no fallback
+failed = {}          # coq_name -> reason (fallback used)
 defs = []
+_FB = os.path.join(os.path.dirname(os.path.abspath(__file__)), "constants_fallback.json")
+try:
+    fallback = json.load(open(_FB))
+except Exception:
+    fallback = {}
+current = {}
+
+def emit(coq_name, text):
+    current[coq_name] = text
+    defs.append(text)
+
+def broken(coq_name, reason):
+    if coq_name in fallback:
+        failed[coq_name] = reason
+        defs.append("(* NOT FOUND in the Go sources: last extracted value *)\n" + fallback[coq_name])
+    else:
+        errors.append(f"{coq_name}: {reason}")
 
 def nat_const(coq_name, rel, pattern, doc):
     try:
         src = read(rel)
     except OSError as e:
-        errors.append(f"{coq_name}: cannot read {rel}: {e}"); return
+        broken(coq_name, f"cannot read {rel}: {e}"); return
     m = re.search(pattern, src, re.M)
     if not m:
-        errors.append(f"{coq_name}: pattern {pattern!r} not found in {rel}"); return
-    defs.append(f"(* {rel}: {doc} *)\nDefinition {coq_name} : nat := {int(m.group(1))}.")
+        broken(coq_name, f"pattern {pattern!r} not found in {rel}"); return
+    emit(coq_name, f"(* {rel}: {doc} *)\nDefinition {coq_name} : nat := {int(m.group(1))}.")
 
 def str_const(coq_name, rel, pattern, doc):
     try:
         src = read(rel)
     except OSError as e:
-        errors.append(f"{coq_name}: cannot read {rel}: {e}"); return
+        broken(coq_name, f"cannot read {rel}: {e}"); return
     m = re.search(pattern, src, re.M | re.S)
     if not m:
-        errors.append(f"{coq_name}: pattern {pattern!r} not found in {rel}"); return
-    defs.append(f"(* {rel}: {doc} *)\nDefinition {coq_name} : string := {coq_str(m.group(1))}.")
+        broken(coq_name, f"pattern {pattern!r} not found in {rel}"); return
+    emit(coq_name, f"(* {rel}: {doc} *)\nDefinition {coq_name} : string := {coq_str(m.group(1))}.")
 
 def strlist_const(coq_name, rel, pattern, doc):
     try:
         src = read(rel)
     except OSError as e:
-        errors.append(f"{coq_name}: cannot read {rel}: {e}"); return
+        broken(coq_name, f"cannot read {rel}: {e}"); return
     m = re.search(pattern, src, re.M | re.S)
     if not m:
-        errors.append(f"{coq_name}: pattern {pattern!r} not found in {rel}"); return
+        broken(coq_name, f"pattern {pattern!r} not found in {rel}"); return
     items = go_string_list(m.group(1))
-    defs.append(f"(* {rel}: {doc} *)\nDefinition {coq_name} : list string := [" +
+    emit(coq_name, f"(* {rel}: {doc} *)\nDefinition {coq_name} : list string := [" +
                 "; ".join(coq_str(x) for x in items) + "].")
 
 def cmp_const(coq_name, rel, pattern, doc):
@@ -72,13 +93,13 @@ def cmp_const(coq_name, rel, pattern, doc):
 
 # ---- call graph / reverse call graph budgets (C03, C04, C07)
 nat_const("maxLoopCount", "pkg/application/call/call_graph.go",
-          r"^var maxLoopCount = (\d+)\s*$", "expansion budget of BuildCallChain")
+          r"^(?:var|const)\s+maxLoopCount\s*(?:int\s*)?=\s*(\d+)\s*$", "expansion budget of BuildCallChain")
 cmp_const("maxLoopCount_cmp", "pkg/application/call/call_graph.go",
-          r"if loopCount (\S+) maxLoopCount \{", "budget test of BuildCallChain")
+          r"if\s+\w+\s*([<>]=?|[!=]=)\s*maxLoopCount\s*\{", "budget test of BuildCallChain")
 nat_const("loopDepth", "pkg/application/rcall/rcall_graph.go",
-          r"^var loopDepth = (\d+)\s*$", "depth budget of BuildRCallChain")
+          r"^(?:var|const)\s+loopDepth\s*(?:int\s*)?=\s*(\d+)\s*$", "depth budget of BuildRCallChain")
 cmp_const("loopDepth_cmp", "pkg/application/rcall/rcall_graph.go",
-          r"if loopCount (\S+) loopDepth \{", "budget test of BuildRCallChain")
+          r"if\s+\w+\s*([<>]=?|[!=]=)\s*loopDepth\s*\{", "budget test of BuildRCallChain")
 
 # ---- bad smell thresholds (C10)
 for name in ["BS_LONG_PARAS_LENGTH", "BS_IF_SWITCH_LENGTH", "BS_LARGE_LENGTH",
@@ -86,17 +107,17 @@ for name in ["BS_LONG_PARAS_LENGTH", "BS_IF_SWITCH_LENGTH", "BS_LARGE_LENGTH",
     nat_const(name, "pkg/application/bs/bs_app.go",
               r"^\s*%s\s*=\s*(\d+)\s*$" % name, "bad smell threshold")
 cmp_const("bs_long_method_cmp", "pkg/application/bs/bs_app.go",
-          r"methodLength (\S+) BS_METHOD_LENGTH", "longMethod comparison")
+          r"\w\s*([<>]=?|[!=]=)\s*BS_METHOD_LENGTH\b", "longMethod comparison")
 cmp_const("bs_long_params_cmp", "pkg/application/bs/bs_app.go",
-          r"len\(method\.Parameters\) (\S+) BS_LONG_PARAS_LENGTH", "longParameterList comparison")
+          r"Parameters\)\s*([<>]=?|[!=]=)\s*BS_LONG_PARAS_LENGTH\b", "longParameterList comparison")
 cmp_const("bs_large_class_cmp", "pkg/application/bs/bs_app.go",
-          r"normalClassLength (\S+) BS_LARGE_LENGTH", "largeClass comparison")
+          r"\w\s*([<>]=?|[!=]=)\s*BS_LARGE_LENGTH\b", "largeClass comparison")
 cmp_const("bs_if_size_cmp", "pkg/application/bs/bs_app.go",
-          r"method\.FunctionBS\.IfSize (\S+) BS_IF_SWITCH_LENGTH", "repeatedSwitches (if) comparison")
+          r"\.IfSize\s*([<>]=?|[!=]=)\s*BS_IF_SWITCH_LENGTH\b", "repeatedSwitches (if) comparison")
 cmp_const("bs_switch_size_cmp", "pkg/application/bs/bs_app.go",
-          r"method\.FunctionBS\.SwitchSize (\S+) BS_IF_SWITCH_LENGTH", "repeatedSwitches (switch) comparison")
+          r"\.SwitchSize\s*([<>]=?|[!=]=)\s*BS_IF_SWITCH_LENGTH\b", "repeatedSwitches (switch) comparison")
 cmp_const("bs_if_lines_cmp", "pkg/application/bs/bs_app.go",
-          r"info\.EndLine-info\.StartLine (\S+) BS_IF_LINES_LENGTH", "complexCondition comparison")
+          r"\.EndLine\s*-\s*\w+\.StartLine\s*([<>]=?|[!=]=)\s*BS_IF_LINES_LENGTH\b", "complexCondition comparison")
 
 # ---- test bad smell (C11)
 nat_const("DuplicatedAssertionLimitLength", "pkg/infrastructure/constants/java_target_config.go",
@@ -106,7 +127,7 @@ strlist_const("ASSERTION_LIST", "pkg/infrastructure/constants/java_target_config
 
 # ---- architecture graph (C13)
 nat_const("tequila_Level", "pkg/application/arch/tequila/merge_viz.go",
-          r"^var Level = (\d+)\s*$", "MergePackageFunc depth")
+          r"^(?:var|const)\s+Level\s*(?:int\s*)?=\s*(\d+)\s*$", "MergePackageFunc depth")
 
 # ---- concept analysis (C18)
 strlist_const("TechStopWords", "pkg/infrastructure/constants/java_target_config.go",
@@ -121,13 +142,13 @@ strlist_const("cloc_ignore_dirs", "pkg/application/cloc/cloc_app.go",
 strlist_const("cloc_exclude_dirs", "cmd/cloc.go",
               r"&processor\.PathDenyList, \"exclude-dir\", \[\]string\{(.*?)\}", "default of --exclude-dir (scc path deny list)")
 nat_const("cloc_top_lang_limit", "cmd/cloc.go",
-          r"if len\(languageSummaries\) <= (\d+) \{", "top-file tables are printed for at most this many languages")
+          r"if\s+len\(\w+\)\s*<=\s*(\d+)\s*\{", "top-file tables are printed for at most this many languages")
 cmp_const("cloc_top_size_cmp", "cmd/cloc.go",
-          r"if sizes (\S+) clocConfig\.TopSizes \{", "top-file truncation test")
+          r"if\s+\w+\s*([<>]=?|[!=]=)\s*clocConfig\.TopSizes\s*\{", "top-file truncation test")
 
 # ---- git log arguments (C14)
 strlist_const("git_log_args", "cmd/git.go",
-              r"historyArgs := \[\]string\{(.*?)\}\s*$", "argument vector of the git log invocation")
+              r"\w+\s*:=\s*\[\]string\{(\s*\"log\".*?)\}\s*$", "argument vector of the git log invocation")
 
 # ---- build dependencies (C19)
 str_const("deps_pom_block", "pkg/application/deps/maven_analysis.go",
@@ -152,15 +173,15 @@ def bool_switch(coq_name, checks, doc):
         try:
             src = read(rel)
         except OSError as e:
-            errors.append(f"{coq_name}: cannot read {rel}: {e}"); return
+            broken(coq_name, f"cannot read {rel}: {e}"); return
         a = re.search(pf, src, re.M) is not None
         b = re.search(pt, src, re.M) is not None
         if a == b:
-            errors.append(f"{coq_name}: {rel}: expected exactly one of {pf!r} / {pt!r} (found {'both' if a else 'neither'})"); return
+            broken(coq_name, f"{rel}: expected exactly one of {pf!r} / {pt!r} (found {'both' if a else 'neither'})"); return
         votes.append(b)
     if len(set(votes)) != 1:
-        errors.append(f"{coq_name}: the sources disagree ({votes}) -- the repair is only half applied"); return
-    defs.append(f"(* {', '.join(c[0] for c in checks)}: {doc} *)\nDefinition {coq_name} : bool := {'true' if votes[0] else 'false'}.")
+        broken(coq_name, f"the sources disagree ({votes}) -- the repair is only half applied"); return
+    emit(coq_name, f"(* {', '.join(c[0] for c in checks)}: {doc} *)\nDefinition {coq_name} : bool := {'true' if votes[0] else 'false'}.")
 
 _UI = "pkg/application/refactor/unused/remove_unused_import.go"
 _UL = "pkg/application/refactor/base/java_refactor_listener.go"
@@ -192,19 +213,30 @@ str_const("rename_line_sep", "pkg/application/refactor/rename/rename_method.go",
 str_const("rename_name_sep", "pkg/application/refactor/rename/support/package_info_helper.go",
           r'strings\.Split\(name, "([^"]+)"\)', "separator of package, class and method in a qualified method name")
 
-import json as _json
-if not errors:
-    _m = re.search(r"historyArgs := \[\]string\{(.*?)\}\s*$", read("cmd/git.go"), re.M | re.S)
-    _jp = os.path.join(os.path.dirname(OUT), "constants.json")
-    _jt = _json.dumps({"git_log_args": go_string_list(_m.group(1))})
+_jp = os.path.join(os.path.dirname(OUT), "constants.json")
+if "git_log_args" in current:
+    _m = re.search(r"\w+\s*:=\s*\[\]string\{(\s*\"log\".*?)\}\s*$", read("cmd/git.go"), re.M | re.S)
+    _jt = json.dumps({"git_log_args": go_string_list(_m.group(1))})
     if not os.path.exists(_jp) or open(_jp).read() != _jt:
         open(_jp, "w").write(_jt)
 
 if errors:
-    sys.stderr.write("gen_constants: BROKEN TIE (constants not found in the Go sources):\n")
+    sys.stderr.write("gen_constants: BROKEN TIE (constants not found in the Go sources, no fallback value):\n")
     for e in errors:
         sys.stderr.write("  " + e + "\n")
     sys.exit(2)
+for k, v in failed.items():
+    sys.stderr.write("gen_constants: BROKEN TIE for %s: %s (last extracted value used)\n" % (k, v))
+
+_st = os.path.join(os.path.dirname(OUT), "constants_status.json")
+_sj = json.dumps({"failed": failed, "constants": sorted(list(current) + list(failed))}, indent=1, sort_keys=True)
+if not os.path.exists(_st) or open(_st).read() != _sj:
+    open(_st, "w").write(_sj)
+# remember what was extracted (committed file; changes only when the Go constants change)
+_nf = dict(fallback); _nf.update(current)
+_nj = json.dumps(_nf, indent=1, sort_keys=True, ensure_ascii=True)
+if not os.path.exists(_FB) or open(_FB).read() != _nj:
+    open(_FB, "w").write(_nj)
 
 text = """(* GENERATED by tools/gen_constants.py from the Go sources under /repo -- do not edit. *)
 From Coq Require Import String List.
